@@ -11,7 +11,9 @@ import (
 	"encoding/base64"
 	"encoding/binary"
 	"fmt"
+	"hash/fnv"
 	"math/big"
+	"strings"
 	"sync"
 
 	"github.com/btcsuite/btcd/btcec/v2"
@@ -131,13 +133,33 @@ func newKey(seed int64, kt, name string) *Key {
 	} else {
 		c := curveOf(kt)
 		n := c.Params().N
-		d := new(big.Int).SetBytes(seedBytes(seed, kt+"/"+name, (n.BitLen()+7)/8+8))
-		d.Mod(d, new(big.Int).Sub(n, big.NewInt(1)))
-		d.Add(d, big.NewInt(1))
-		x, y := c.ScalarBaseMult(d.Bytes())
-		priv := &ecdsa.PrivateKey{PublicKey: ecdsa.PublicKey{Curve: c, X: x, Y: y}, D: d}
-		k.Priv = priv
-		k.Pub = &priv.PublicKey
+		width := (c.Params().BitSize + 7) / 8
+
+		// every fourth key (by name) is one whose x or y coordinate starts with a zero byte: an encoding that
+		// drops or misplaces leading zeros then shows wherever such a key signs, reveals or commits
+		rare := rareShape(kt, name)
+
+		for try := 0; ; try++ {
+			label := kt + "/" + name
+			if try > 0 {
+				label = fmt.Sprintf("%s#%d", label, try)
+			}
+
+			d := new(big.Int).SetBytes(seedBytes(seed, label, (n.BitLen()+7)/8+8))
+			d.Mod(d, new(big.Int).Sub(n, big.NewInt(1)))
+			d.Add(d, big.NewInt(1))
+			x, y := c.ScalarBaseMult(d.Bytes())
+
+			if rare && try < 4000 && len(x.Bytes()) == width && len(y.Bytes()) == width {
+				continue
+			}
+
+			priv := &ecdsa.PrivateKey{PublicKey: ecdsa.PublicKey{Curve: c, X: x, Y: y}, D: d}
+			k.Priv = priv
+			k.Pub = &priv.PublicKey
+
+			break
+		}
 	}
 
 	jwk, err := pubkey.GetPublicKeyJWK(k.Pub)
@@ -148,6 +170,13 @@ func newKey(seed int64, kt, name string) *Key {
 	k.JWK = jwk
 
 	return k
+}
+
+func rareShape(kt, name string) bool {
+	h := fnv.New32a()
+	h.Write([]byte(kt + "/" + name))
+
+	return strings.HasPrefix(name, "rare:") || h.Sum32()%4 == 0
 }
 
 // Sign produces a raw JWS signature (r||s fixed width, or Ed25519) over msg. This is the
